@@ -79,7 +79,7 @@ def check_case(ctx, case, record=True):
 def run_shard(ctx):
     max_nodes, max_ops = (8, 6) if ctx.tier == "quick" else (12, 9)
 
-    @given(regcommon.reg_cases(max_nodes=max_nodes, max_ops=max_ops, xdeps=True, alias=True))
+    @given(regcommon.reg_cases(max_nodes=max_nodes, max_ops=max_ops, xdeps=True, alias=True, sread=True))
     def test(case):
         check_case(ctx, case)
 
